@@ -104,11 +104,11 @@ impl Operation {
             Shr => compute_shr_uint(a, b),
             // TODO test with conner case when it is possible to get the number
             //      bigger then modulus
-            Bor => a.bitor(b),
+            Bor => reduce_once(a.bitor(b)),
             Band => a.bitand(b),
             // TODO test with conner case when it is possible to get the number
             //      bigger then modulus
-            Bxor => a.bitxor(b),
+            Bxor => reduce_once(a.bitxor(b)),
             Idiv => a / b,
         }
     }
@@ -382,6 +382,15 @@ impl std::fmt::Display for NodeConstErr {
 }
 
 impl Error for NodeConstErr {}
+
+/// Brings a value below 2*M (e.g. the bitwise or/xor of two field elements) back into the field
+fn reduce_once(x: U256) -> U256 {
+    if x >= M {
+        x - M
+    } else {
+        x
+    }
+}
 
 fn compute_shl_uint(a: U256, b: U256) -> U256 {
     debug_assert!(b.lt(&U256::from(256)));
@@ -671,8 +680,13 @@ fn shl(a: Fr, b: Fr) -> Fr {
     }
 
     let n = b.into_bigint().0[0] as u32;
-    let a = a.into_bigint();
-    Fr::from_bigint(a << n).unwrap()
+    // (a << n) & (2^254 - 1), reduced modulo p (the masked value is below 2p)
+    let mut d = a.into_bigint() << n;
+    d.0[3] &= (1u64 << (Fr::MODULUS_BIT_SIZE - 192)) - 1;
+    if d >= Fr::MODULUS {
+        d.sub_with_borrow(&Fr::MODULUS);
+    }
+    Fr::from_bigint(d).unwrap()
 }
 
 fn shr(a: Fr, b: Fr) -> Fr {
@@ -722,7 +736,7 @@ fn bit_and(a: Fr, b: Fr) -> Fr {
         a.0[3] & b.0[3],
     ];
     let mut d: BigInt<4> = BigInt::new(c);
-    if d > Fr::MODULUS {
+    if d >= Fr::MODULUS {
         d.sub_with_borrow(&Fr::MODULUS);
     }
 
@@ -739,7 +753,7 @@ fn bit_or(a: Fr, b: Fr) -> Fr {
         a.0[3] | b.0[3],
     ];
     let mut d: BigInt<4> = BigInt::new(c);
-    if d > Fr::MODULUS {
+    if d >= Fr::MODULUS {
         d.sub_with_borrow(&Fr::MODULUS);
     }
 
@@ -756,7 +770,7 @@ fn bit_xor(a: Fr, b: Fr) -> Fr {
         a.0[3] ^ b.0[3],
     ];
     let mut d: BigInt<4> = BigInt::new(c);
-    if d > Fr::MODULUS {
+    if d >= Fr::MODULUS {
         d.sub_with_borrow(&Fr::MODULUS);
     }
 
